@@ -712,7 +712,22 @@ func (c *Client) processPubrel(id packet.ID) error {
 	// get packet from store
 	publish, ok := pkt.(*packet.Publish)
 	if !ok {
-		return nil // ignore a wrongly sent Pubrel packet
+		// ignore a Pubrel packet with an invalid packet id
+		if !id.Valid() {
+			return nil
+		}
+
+		// acknowledge a Pubrel packet for an unknown packet id (the message
+		// has already been released) to allow the broker to complete the flow
+		pubcomp := packet.NewPubcomp()
+		pubcomp.ID = id
+
+		err = c.send(pubcomp, true)
+		if err != nil {
+			return c.die(err, false)
+		}
+
+		return nil
 	}
 
 	// call callback
